@@ -18,3 +18,82 @@ package calc
 //@              || (ipFamily == 6 && c.nodeNameToNodeInfo[c.myNodeName].V6CIDR != zero(ip.V6CIDR)
 //@                     && v6agree(c.nodeNameToNodeInfo[c.myNodeName].V6CIDR.addr, c.nodeNameToNodeInfo[name].V6Addr, c.nodeNameToNodeInfo[c.myNodeName].V6CIDR.prefix))))
 //@   assigns nothing
+
+//@ -- ---------------------------------------------------------------- C03: tier and policy ordering
+//@ -- Tiers: valid tiers first; then ascending order with unset order last; then name.
+//@ spec func tierBefore(vi bool, hasOi bool, oi float64, ni string, vj bool, hasOj bool, oj float64, nj string) bool =
+//@      (vi && !vj) || (vi == vj && ((hasOi && !hasOj) || (hasOi == hasOj && ((hasOi && oi < oj) || ((!hasOi || oi == oj) && ni < nj)))))
+//@ func TierLess
+//@   property C03
+//@   requires (i.Order != nil ==> !isNaN(*i.Order)) && (j.Order != nil ==> !isNaN(*j.Order))
+//@   ensures res == tierBefore(i.Valid, i.Order != nil, *i.Order, i.Name, j.Valid, j.Order != nil, *j.Order, j.Name)
+//@   assigns nothing
+//@ -- a strict weak order on tiers whose orders are not NaN; incomparable tiers have the same name
+//@ lemma tierBefore_irreflexive: forall v bool, h bool, o float64, n string :: !tierBefore(v, h, o, n, v, h, o, n)
+//@   property C03
+//@ lemma tierBefore_transitive: forall v1 bool, h1 bool, o1 float64, n1 string, v2 bool, h2 bool, o2 float64, n2 string, v3 bool, h3 bool, o3 float64, n3 string ::
+//@      !isNaN(o1) && !isNaN(o2) && !isNaN(o3) && tierBefore(v1, h1, o1, n1, v2, h2, o2, n2) && tierBefore(v2, h2, o2, n2, v3, h3, o3, n3)
+//@      ==> tierBefore(v1, h1, o1, n1, v3, h3, o3, n3)
+//@   property C03
+//@ lemma tierBefore_total: forall v1 bool, h1 bool, o1 float64, n1 string, v2 bool, h2 bool, o2 float64, n2 string ::
+//@      !isNaN(o1) && !isNaN(o2) && !tierBefore(v1, h1, o1, n1, v2, h2, o2, n2) && !tierBefore(v2, h2, o2, n2, v1, h1, o1, n1)
+//@      ==> n1 == n2 && v1 == v2 && h1 == h2
+//@   property C03
+
+//@ -- Policies within a tier: ascending order (unset order is stored as +Inf, hence last), then the text
+//@ -- name/namespace/kind.
+//@ spec func polKeyText(k model.PolicyKey) string = k.Name + "/" + k.Namespace + "/" + k.Kind
+//@ spec func polBefore(oi float64, ki model.PolicyKey, oj float64, kj model.PolicyKey) bool = oi < oj || (oi == oj && polKeyText(ki) < polKeyText(kj))
+//@ func PolKVLess
+//@   property C03
+//@   requires i.Value != nil && j.Value != nil
+//@   ensures res == polBefore(i.Value.Order, i.Key, j.Value.Order, j.Key)
+//@   assigns nothing
+//@ lemma polBefore_irreflexive: forall o float64, k model.PolicyKey :: !polBefore(o, k, o, k)
+//@   property C03
+//@ lemma polBefore_transitive: forall o1 float64, k1 model.PolicyKey, o2 float64, k2 model.PolicyKey, o3 float64, k3 model.PolicyKey ::
+//@      !isNaN(o1) && !isNaN(o2) && !isNaN(o3) && polBefore(o1, k1, o2, k2) && polBefore(o2, k2, o3, k3) ==> polBefore(o1, k1, o3, k3)
+//@   property C03
+//@ lemma polBefore_total: forall o1 float64, k1 model.PolicyKey, o2 float64, k2 model.PolicyKey ::
+//@      !isNaN(o1) && !isNaN(o2) && !polBefore(o1, k1, o2, k2) && !polBefore(o2, k2, o1, k1) ==> o1 == o2 && polKeyText(k1) == polKeyText(k2)
+//@   property C03
+//@ -- unset order (+Inf) sorts after every finite order
+//@ lemma polBefore_unset_last: forall o1 float64, k1 model.PolicyKey, o2 float64, k2 model.PolicyKey ::
+//@      !isNaN(o1) && !isInf(o1) && isInf(o2) && o2 > o1 ==> polBefore(o1, k1, o2, k2) && !polBefore(o2, k2, o1, k1)
+//@   property C03
+
+//@ -- ingress / egress split follows the policy's type flags
+//@ func (*PolKV).GovernsIngress
+//@   property C03
+//@   requires p != nil
+//@   ensures res == (p.Value != nil && p.Value.Flags & policyMetaIngress != 0)
+//@   assigns nothing
+//@ func (*PolKV).GovernsEgress
+//@   property C03
+//@   requires p != nil
+//@   ensures res == (p.Value != nil && p.Value.Flags & policyMetaEgress != 0)
+//@   assigns nothing
+
+//@ -- A policy lands in a tier's ingress list iff it governs ingress, and in its egress list iff egress is
+//@ -- allowed for that class and it governs egress; existing entries keep their order and identity, the new
+//@ -- entry (appended last) names the policy.
+//@ spec macro polGovIn(pol *PolKV) bool = pol.Value != nil && pol.Value.Flags & policyMetaIngress != 0
+//@ spec macro polGovEg(pol *PolKV) bool = pol.Value != nil && pol.Value.Flags & policyMetaEgress != 0
+//@ func addPolicyToTierInfo
+//@   property C03
+//@   requires pol != nil && tierInfo != nil
+//@   requires arrayOf(tierInfo.IngressPolicies) != arrayOf(tierInfo.EgressPolicies) || arrayOf(tierInfo.IngressPolicies) == 0
+//@   ensures polGovIn(pol) ==> len(tierInfo.IngressPolicies) == old(len(tierInfo.IngressPolicies)) + 1
+//@            && tierInfo.IngressPolicies[old(len(tierInfo.IngressPolicies))] != nil
+//@            && tierInfo.IngressPolicies[old(len(tierInfo.IngressPolicies))].Name == pol.Key.Name
+//@            && tierInfo.IngressPolicies[old(len(tierInfo.IngressPolicies))].Namespace == pol.Key.Namespace
+//@            && tierInfo.IngressPolicies[old(len(tierInfo.IngressPolicies))].Kind == pol.Key.Kind
+//@   ensures forall k int :: 0 <= k && k < old(len(tierInfo.IngressPolicies)) ==> tierInfo.IngressPolicies[k] == old(tierInfo.IngressPolicies[k])
+//@   ensures !polGovIn(pol) ==> len(tierInfo.IngressPolicies) == old(len(tierInfo.IngressPolicies))
+//@   ensures egressAllowed && polGovEg(pol) ==> len(tierInfo.EgressPolicies) == old(len(tierInfo.EgressPolicies)) + 1
+//@            && tierInfo.EgressPolicies[old(len(tierInfo.EgressPolicies))] != nil
+//@            && tierInfo.EgressPolicies[old(len(tierInfo.EgressPolicies))].Name == pol.Key.Name
+//@            && tierInfo.EgressPolicies[old(len(tierInfo.EgressPolicies))].Namespace == pol.Key.Namespace
+//@            && tierInfo.EgressPolicies[old(len(tierInfo.EgressPolicies))].Kind == pol.Key.Kind
+//@   ensures forall k int :: 0 <= k && k < old(len(tierInfo.EgressPolicies)) ==> tierInfo.EgressPolicies[k] == old(tierInfo.EgressPolicies[k])
+//@   ensures !(egressAllowed && polGovEg(pol)) ==> len(tierInfo.EgressPolicies) == old(len(tierInfo.EgressPolicies))
